@@ -36,10 +36,62 @@ def nested_redo_keep_going(viol):
         pr.destroy()
 
 
+def runloop_level(ctx, viol):
+    """The stop / keep-going rule at -j>1 on the real scheduler: generated graphs with failing scripts, built with and
+    without -k at -j1..4 (sometimes beside a second invocation, so that the second loop over locked targets runs).
+    Every process's builder::run is replayed through the RunLoop acceptor (Props/C05c: no new target is started after
+    a failure is known without -k; with -k every announced target gets a decision; exit status = result cell).
+    Independently of the hooks, for serial builds without -k the scripts' own begin/end records must show no script
+    beginning after the first failing script ended; and a build whose needed scripts fail must not exit 0."""
+    import random, sched
+    rng = random.Random(ctx["seed"] * 131 + 5)
+    stats = dict(builds=0, failing_builds=0, keep_going=0, runloop_processes=0)
+    n = 10 if ctx["tier"] == "thorough" else 4
+    for i in range(n):
+        pr = Project()
+        try:
+            g = sched.gen_graph(rng, rng.randint(4, 9))
+            for nm in g:
+                g[nm]["fail"] = rng.random() < 0.25
+                g[nm]["dur"] = rng.choice([0, 20, 60, 120])
+            sched.write_project(pr, g)
+            kg = rng.random() < 0.5
+            cmds = [["redo", "-j%d" % rng.randint(1, 4)] + (["-k"] if kg else []) + ["all"]]
+            if rng.random() < 0.5:
+                cmds.append(["redo-ifchange"] + rng.sample(sorted(g), min(2, len(g))))
+            rs = sched.run_cmds(pr, cmds, timeout=90, stagger=0.02)
+            stats["builds"] += 1
+            stats["keep_going"] += 1 if kg else 0
+            stats["failing_builds"] += 1 if rs[0].rc != 0 else 0
+            scen = dict(graph={a: d["deps"] for a, d in g.items()}, failing=[a for a, d in g.items() if d["fail"]], commands=cmds)
+            if any(r.timed_out for r in rs):
+                continue                                   # hangs are C09's subject
+            if not sched.runloop_check("C05", "par-%d" % i, rs[0].trace, viol, stats, scen):
+                return stats
+            failing = set(scen["failing"])
+            ends = sorted(ts for k, pid, nm, ts in rs[0].work if k == "E" and nm in failing)
+            if ends and rs[0].rc == 0:
+                p = write_replay("C05", "par-status-%d" % i, dict(kind="impl-monitor", scenario=scen, rc=rs[0].rc, stderr=rs[0].err[-1500:]))
+                viol.append(Violation("C05", p, "`%s` exited 0 although the script of a needed target failed (%s)" % (" ".join(cmds[0]), sorted(failing))))
+                return stats
+            if ends and not kg and len(cmds) == 1 and "-j1" in cmds[0]:
+                late = sorted(nm for k, pid, nm, ts in rs[0].work if k == "B" and ts > ends[0])
+                stats["serial_stop_checked"] = stats.get("serial_stop_checked", 0) + 1
+                if late:
+                    p = write_replay("C05", "serial-stop-%d" % i, dict(kind="impl-monitor", scenario=scen, started_after_failure=late, work=rs[0].work[:200]))
+                    viol.append(Violation("C05", p, "`%s` (no -k): scripts of %s began after the first failure was known" % (" ".join(cmds[0]), late)))
+                    return stats
+        finally:
+            pr.destroy()
+    return stats
+
+
 def run(ctx):
     cov = deps_check.run_property(ctx, "C05", FEATURES["C05"], NCASES["C05"], WANT["C05"], known_matcher=KNOWN.get("C05"))
     viol = ctx.setdefault("violations", [])
     if not viol and not ctx.get("replay"):
         nested_redo_keep_going(viol)
         cov["directed_scenarios"] = 1
+    if not viol and not ctx.get("replay"):
+        cov.setdefault("distribution", {})["runloop_level"] = runloop_level(ctx, viol)
     return cov
